@@ -799,6 +799,15 @@ func genSeq(r *Rng, mode string, steps int) *Enc {
 					d[i] = Pick(r, near)
 				}
 			}
+			if r.Chance(6) {
+				for i := range d {
+					d[i] = Pick(r, []any{".5", "0.25", ".75", "0.1", "-.5", "1", nil})
+				}
+			} else if r.Chance(6) {
+				for i := range d {
+					d[i] = Pick(r, []any{int64(9007199254740993), int64(1152921504606846977), int64(42), int64(10000000000000001), int64(-9007199254740995), nil})
+				}
+			}
 			if r.Chance(50) { // few distinct values: many ties
 				for i := range d {
 					d[i] = d[r.Intn(min(3, n))]
@@ -838,6 +847,9 @@ func genSeq(r *Rng, mode string, steps int) *Enc {
 			}
 			df.Columns[c] = &dataframe.Column[any]{Name: c, Data: d}
 		}
+		if r.Chance(10) {
+			sprinkleNaN(r, df)
+		}
 		s.pool = []*DF{df}
 		s.names = []string{"a", "b", "c", "zz", "index"}
 	case "c08":
@@ -847,6 +859,9 @@ func genSeq(r *Rng, mode string, steps int) *Enc {
 		df := r.Frame(n, r.Range(0, 4), names)
 		if df.Ncols() > 0 && r.Chance(50) {
 			df.Columns["index"] = &dataframe.Column[any]{Name: "index", Data: r.Column(n, Pick(r, []colKind{kInt, kStr, kMixed}))}
+		}
+		if r.Chance(12) {
+			sprinkleNaN(r, df)
 		}
 		s.pool = []*DF{df}
 	case "c15":
@@ -881,6 +896,7 @@ func genSeq(r *Rng, mode string, steps int) *Enc {
 					{"2020-01-02 03:04:05", "1999-12-31 23:59:59"},
 					{"2024-02-29T12:30:00Z", "2024-02-29T12:30:00+02:00", "1999-12-31T23:59:59Z"},
 					{"May 5, 2024", "September 15, 2023", "January 2, 2006"},
+					{"2024-01-05", "2024-01-06 ", " 2024-01-07", "2024-01-08"},
 				})
 				for i := range d {
 					d[i] = Pick(r, fam)
@@ -904,6 +920,10 @@ func genSeq(r *Rng, mode string, steps int) *Enc {
 			}
 			df.Columns[c] = &dataframe.Column[any]{Name: c, Data: d}
 		}
+		if r.Chance(8) {
+			sprinkleNaN(r, df) // NaN is a value, not a missing cell: FillNa and DropNa leave it alone
+			s.kinds = []string{"fillna", "dropna", "dropna"}
+		}
 		s.pool = []*DF{df}
 		s.names = []string{"a", "b", "c", "d", "zz"}
 	case "c19":
@@ -911,6 +931,9 @@ func genSeq(r *Rng, mode string, steps int) *Enc {
 		s.kinds = []string{"shift", "shift", "shift", "setcell", "fillna", "droprow"}
 		steps = r.Range(1, 5)
 		s.pool = []*DF{r.Frame(r.SmallN()+r.Intn(4), r.Range(0, 3), names)}
+		if r.Chance(12) {
+			sprinkleNaN(r, s.pool[0])
+		}
 		if r.Intn(120) == 0 {
 			// a long single-column frame beyond typical parallelisation thresholds (4096, 16384), length not a multiple of 8
 			n := Pick(r, []int{4096, 16384}) + 1 + 2*r.Intn(10)
@@ -1036,4 +1059,17 @@ func bigFrame(r *Rng, n, ncols int) *DF {
 		df.Columns[name] = &dataframe.Column[any]{Name: name, Data: d}
 	}
 	return df
+}
+
+// sprinkleNaN overwrites a few cells of one column with NaN / -0 / +Inf: cells like any other for the operations that
+// only move, select, compare-for-identity or render cells
+func sprinkleNaN(r *Rng, df *DF) {
+	ks := df.ColumnNames()
+	if len(ks) == 0 {
+		return
+	}
+	c := df.Columns[Pick(r, ks)]
+	for k := r.Range(1, 3); k > 0 && len(c.Data) > 0; k-- {
+		c.Data[r.Intn(len(c.Data))] = Pick(r, []any{math.NaN(), math.NaN(), math.Copysign(0, -1), math.Inf(1), float32(float32(math.NaN()))})
+	}
 }
